@@ -62,6 +62,13 @@ def run(ctx, info):
                 seed = r.choice([None, 0, 42, r.randint(0, 10**6)])
                 t = search.cont_task(obj=r.choice(["sphere", "shifted"]), minmax=r.choice(["min", "max"]), seed=seed, dim=3, delay=0.0006)
                 jobs.append({"opt": nm, "cfg": {"max_cycles": 2, "fitness_error": None, "population_size": 12}, "task": t, "mode": mode, "workers": wk, "record": True})
+                if mode == "thread":
+                    # ... and on a FRESH mixed task with many variables, no delay, many workers, the interpreter switching threads every microsecond: state that the
+                    # pooled evaluations share (the task, its variables) is touched by several of them at once
+                    from .. import census
+                    t2 = {"vars": [("cont", (-1.0, 1.0))] * 6 + census.INT_ENCODINGS["mixed"]() + [("contmulti", ([-2.0] * 4, [2.0] * 4))], "obj": "sphere", "minmax": r.choice(["min", "max"]), "seed": seed}
+                    jobs.append({"opt": nm, "cfg": {"max_cycles": 1, "fitness_error": None, "population_size": 24}, "task": t2, "mode": "thread", "workers": r.choice([8, 16]), "record": True,
+                                 "switchinterval": 1e-6, "hashseed": 0})
     for nm in pooled_greedy_users[:1] + pick[-2:]:          # more workers than agents, both pooled modes (deterministic part of the plan)
         for mode in ("process", "thread"):
             jobs.append({"opt": nm, "cfg": {"max_cycles": 2, "fitness_error": None, "population_size": 12}, "task": search.cont_task(obj="sphere", seed=r.choice([None, 42]), dim=3, delay=0.0004),
